@@ -65,12 +65,12 @@ func main() {
 	r.Require("retry_stop_after_success_opportunities", 2000)
 	r.Require("retry_stop_after_nonretriable_opportunities", 2000)
 	r.Require("retry_stop_after_cancel_opportunities", 2000)
-	r.Require("retry_exhausted_all_attempts", 1000)
+	r.Require("retry_exhausted_all_attempts", 500)
 	r.Require("retry_context_kind_reported", 500)
 	r.Require("retry_predone_context_cases", 100)
 	r.Require("retry_classes", 60)
-	r.Require("apply_evaluations", int64(r.Pick(1500000, 20000000)))
-	r.Require("apply_bigint_oracle_calls", 1000000)
+	r.Require("apply_evaluations", int64(r.Pick(2000000, 40000000)))
+	r.Require("apply_bigint_oracle_calls", 500000)
 	r.Require("apply_hint_honoured_exact", 10000)
 	r.Require("apply_hint_date_bracket_checks", 2000)
 	r.Require("apply_monotonic_pairs", 100000)
